@@ -15,9 +15,10 @@ for cj in sorted(glob.glob(os.path.join(V, "checks", "*", "check.json"))):
         ovp = vc.build_overlay(cdir, cfg, scratch)
         if cfg.get("instrument"):
             subprocess.run([sys.executable, os.path.join(V, "engine_tools", "instrument.py"), json.dumps(cfg["instrument"]), scratch, ovp], env=vc.goenv(), cwd=V)
-        cmd = ["go", "test", "-c", "-vet=off", "-overlay", ovp, "-tags", cfg.get("tags", "verif"), "-o", os.path.join(scratch, "t.test"), cfg["pkg"]]
-        r = subprocess.run(cmd, env=vc.goenv(), cwd=vc.REPO, stdout=subprocess.PIPE, stderr=subprocess.STDOUT, text=True)
-        print(os.path.basename(cdir), "prewarm", "ok" if r.returncode == 0 else "FAILED\n" + r.stdout[-2000:])
+        for tc in (cfg.get("tests") or [{"pkg": cfg["pkg"]}]):
+            cmd = ["go", "test", "-c", "-vet=off", "-overlay", ovp, "-tags", cfg.get("tags", "verif"), "-o", os.path.join(scratch, "t.test"), tc["pkg"]]
+            r = subprocess.run(cmd, env=vc.goenv(), cwd=vc.REPO, stdout=subprocess.PIPE, stderr=subprocess.STDOUT, text=True)
+            print(os.path.basename(cdir), tc["pkg"], "prewarm", "ok" if r.returncode == 0 else "FAILED\n" + r.stdout[-2000:])
         for name, bpkg in cfg.get("binaries", {}).items():
             subprocess.run(["go", "build", "-o", os.path.join(scratch, name), bpkg], env=vc.goenv(), cwd=vc.REPO)
     finally:
